@@ -142,5 +142,9 @@ pub fn parse_systems(doc: &roxmltree::Document) -> GtSystems {
         .and_then(|e| e.text())
         .unwrap_or("")
         .trim();
-    GtSystems::new(gt_systems_str).unwrap()
+    // Los sistemas GT no son necesarios para la conversión del modelo: si no se pueden interpretar se ignoran
+    GtSystems::new(gt_systems_str).unwrap_or_else(|e| {
+        warn!("No se han podido interpretar los sistemas GT: {}", e);
+        GtSystems::default()
+    })
 }
